@@ -219,6 +219,13 @@ def c13(tier, seed):
     return rel.check_split("C13", tier, seed, 90, 3000)
 
 
+def _ws_trap(job):
+    """ask the driver to report states in which only whitespace is ever offered (a dead end of a JSON grammar)"""
+    for e in job["episodes"]:
+        e["ws_trap"] = 1
+    return job
+
+
 def c03(tier, seed):
     """no dead ends: (a) exact mode on byte-complete vocabularies: an allowed token always leaves a state from which
     a match is reachable (mask = live set) and an empty mask / NoExtensionBias has no action; (b) protocol on JSON
@@ -233,10 +240,16 @@ def c03(tier, seed):
     for i in range(60 if q else 2500):
         schema, _p, _k = jsgen.top_schema(rng, full=False, depth=rng.choice([1, 2, 2]))
         gs.append((f"gen{i}", {"kind": "json", "schema": schema}))
+    # integers in narrow windows (few or single witnesses): an off-by-one bound empties the language, which shows
+    # as a state that can only ever be continued by whitespace
+    fam = jsgen.tight_integer_family()
+    single = [m for m in fam if m[0].endswith("w1")]
+    for name, schema in (rng.sample(single, 140) + rng.sample(fam, 40) if q else fam):
+        gs.append((name, {"kind": "json", "schema": schema}))
     parts = [
         ("C03", "regex", exact.regex_job("C03", seed, 24 if q else 1200, byte_complete=True), "Trace_Regex", None),
         ("C03b", "cfg", exact.cfg_job("C03", seed, 24 if q else 1200, byte_complete=True), "Trace_Cfg", None),
-        ("C03c", "json-protocol", rel.build_job("C03", tier, seed, len(gs), gs, steps=(15, 40), vocab_choices=("byte", "lang", "bpe")),
+        ("C03c", "json-protocol", _ws_trap(rel.build_job("C03", tier, seed, len(gs), gs, steps=(15, 40), vocab_choices=("byte", "lang", "bpe"))),
          "Trace_EngineRel", "all"),
     ]
 
@@ -252,7 +265,8 @@ def c03(tier, seed):
                        "(mask = set of tokens after which a match is still reachable; empty masks have no action); (b) JSON "
                        "schemas (numeric ranges, multipleOf, lengths, formats, allOf) walked through the masks with "
                        "byte-complete vocabularies under the protocol model: no empty mask / NoExtensionBias / normal stop "
-                       "in a non-accepting state")
+                       "in a non-accepting state, and no state in which only whitespace is offered four times in a row (WsTrap: whitespace is "
+                       "never required in JSON, so such a state cannot be completed)")
     res.assumptions += ["liveness beyond the walked histories for unbounded JSON strings is covered only by the exact-mode part"]
     return res
 
